@@ -925,19 +925,44 @@ theorem walkCase_spec (r : Int) (p t op oi : Item) (ork : Int) :
     | .climb => ¬ (p = op ∨ p = oi) ∧ r ≤ ork ∧ p ≠ t
     | .mergeLow => ¬ (p = op ∨ p = oi) ∧ r < ork ∧ p = t := by
   unfold walkCase
-  split
-  · assumption
-  · split
-    · exact ⟨by assumption, Or.inl (by assumption)⟩
-    · split
-      · split
-        · split
-          · exact ⟨by assumption, by assumption, by assumption, by assumption⟩
-          · exact ⟨by assumption, Or.inr ⟨by assumption, by assumption, by assumption⟩⟩
-        · exact ⟨by assumption, by omega, by assumption⟩
-      · split
-        · exact ⟨by assumption, by omega, by assumption⟩
-        · exact ⟨by assumption, by omega, by assumption⟩
+  by_cases h1 : p = op ∨ p = oi
+  · rw [if_pos h1]; exact h1
+  · rw [if_neg h1]
+    by_cases h2 : r > ork
+    · rw [if_pos h2]; exact ⟨h1, Or.inl h2⟩
+    · rw [if_neg h2]
+      by_cases h3 : r = ork
+      · rw [if_pos h3]
+        by_cases h4 : p = t
+        · rw [if_pos h4]
+          by_cases h5 : t < op
+          · rw [if_pos h5]; exact ⟨h1, h3, h4, h5⟩
+          · rw [if_neg h5]; exact ⟨h1, Or.inr ⟨h3, h4, h5⟩⟩
+        · rw [if_neg h4]; exact ⟨h1, by omega, h4⟩
+      · rw [if_neg h3]
+        by_cases h4 : p = t
+        · rw [if_pos h4]; exact ⟨h1, by omega, h4⟩
+        · rw [if_neg h4]; exact ⟨h1, by omega, h4⟩
+
+theorem onResolve_eq (s : State) (p x : Item) (k : Int) :
+    onResolve s p x k =
+      if rank (visit s p) p < k then { visit s p with aborted := true }
+      else if rank (visit s p) p > k then visit s p
+      else if parent (visit s p) p = p then increaseRank (visit s p) p (k + 1)
+      else send (visit s p) (.setp x (parent (visit s p) p)) := rfl
+
+theorem onWalk_eq (s : State) (ex : Bool) (t c op oi : Item) (ork : Int) (oa ob : Item) :
+    onWalk s ex t c op oi ork oa ob =
+      match walkCase (rank (visit s t) t) (parent (visit s t) t) t op oi ork with
+      | .stop => splitChild (visit s t) t c
+      | .switch => send (splitChild (visit s t) t c) (.walk ex op oi (parent (visit s t) t) t (rank (visit s t) t) oa ob)
+      | .climb => send (splitChild (visit s t) t c) (.walk ex (parent (visit s t) t) t op oi ork oa ob)
+      | .mergeTie =>
+        if ex then callback (logMerge (reparent (splitChild (visit s t) t c) t op) ex t op) oa ob
+        else send (logMerge (reparent (splitChild (visit s t) t c) t op) ex t op) (.resolve op t (rank (visit s t) t))
+      | .mergeLow =>
+        if ex then callback (logMerge (reparent (splitChild (visit s t) t c) t op) ex t op) oa ob
+        else logMerge (reparent (splitChild (visit s t) t c) t op) ex t op := rfl
 
 theorem ent_splitChild (s : State) (t c : Item) : (splitChild s t c).ent = s.ent := by
   unfold splitChild; split <;> rfl
@@ -951,7 +976,7 @@ theorem InvP.on_splitChild {pend : List Msg} {s : State} (h : InvP pend s) {t c 
   · next hc =>
     rcases hb with hb | ⟨hb1, hb2⟩
     · exact absurd hb hc
-    · apply h.on_send _ (fun _ => trivial)
+    · refine h.on_send (m := .setp c (parent s t)) ?_ (fun _ => trivial)
       refine ⟨hb1, ?_, h.a.closed t ht, hst.trans (sameTree.to_parent s t)⟩
       by_cases hr : isRoot s t
       · have : parent s t = t := hr
@@ -966,14 +991,11 @@ theorem Inv.on_setp {s : State} {x z : Item} (h : InvP [.setp x z] s) : Inv (onS
   exact (h1.on_reparent_nonroot m1 m3 m2 m4).drop (by intro _ _ _ _ _ _ _ _ e; cases e)
 
 theorem Inv.on_resolve {s : State} {p x : Item} {k : Int} (h : InvP [.resolve p x k] s) : Inv (onResolve s p x k) := by
-  unfold onResolve
+  rw [onResolve_eq]
   have h1 := h.on_visit p
   have hp : p ∈ (visit s p).dom := self_mem_dom_visit s p
   obtain ⟨m1, m2, m3, m4⟩ := h1.msgs (.resolve p x k) (by simp)
   have hle := lexLt_rank_le m3
-  have hnw : ∀ ex t c op oi ork a b, Msg.resolve p x k = .walk ex t c op oi ork a b → _ := by
-    intro _ _ _ _ _ _ _ _ e; cases e
-  simp only []
   split
   · omega
   · split
@@ -986,12 +1008,12 @@ theorem Inv.on_resolve {s : State} {p x : Item} {k : Int} (h : InvP [.resolve p 
         exact (h1.on_bump hp hroot (by omega)).drop (by intro _ _ _ _ _ _ _ _ e; cases e)
       · next hnr =>
         have hnr' : ¬ isRoot (visit s p) p := hnr
-        refine (h1.on_send ?_ (fun _ => trivial)).drop (by intro _ _ _ _ _ _ _ _ e; cases e)
+        refine (h1.on_send (m := .setp x (parent (visit s p) p)) ?_ (fun _ => trivial)).drop (by intro _ _ _ _ _ _ _ _ e; cases e)
         exact ⟨m1, lexLt_trans m3 (h1.a.lex p hnr'), h1.a.closed p hp, m4.trans (sameTree.to_parent _ p)⟩
 
 theorem Inv.on_walk {s : State} {ex : Bool} {t c op oi : Item} {ork : Int} {oa ob : Item}
     (h : InvP [.walk ex t c op oi ork oa ob] s) : Inv (onWalk s ex t c op oi ork oa ob) := by
-  unfold onWalk
+  rw [onWalk_eq]
   have h0 := h.on_visit t
   have ht0 : t ∈ (visit s t).dom := self_mem_dom_visit s t
   obtain ⟨b1, b2, b3, b4, b5, b6, b7, b8, b9⟩ := h0.msgs (.walk ex t c op oi ork oa ob) (by simp)
@@ -1009,7 +1031,6 @@ theorem Inv.on_walk {s : State} {ex : Bool} {t c op oi : Item} {ork : Int} {oa o
   have hspec := walkCase_spec (rank s0 t) (parent s0 t) t op oi ork
   have hnn := h1.a.rank_nonneg t
   have htp : sameTree s1 t (parent s1 t) := sameTree.to_parent s1 t
-  simp only []
   rw [← hr t, ← hp t] at hspec ⊢
   -- `t` relative to its parent, in the form messages need
   have hbelow : Below s1 t (parent s1 t) := by
@@ -1064,16 +1085,16 @@ theorem Inv.on_walk {s : State} {ex : Bool} {t c op oi : Item} {ork : Int} {oa o
         · unfold isRoot; rw [hpar]; exact (lexLt_ne hlex).symm
         · show rank (reparent s1 t op) t = rank s1 t
           exact rank_reparent s1 t op t
-        · unfold lexLt
-          show rank (reparent s1 t op) t < rank (reparent s1 t op) op ∨ _
-          simp only [rank_reparent]
-          exact hlex
+        · have r1 : ∀ y, rank (logMerge (reparent s1 t op) false t op) y = rank s1 y := fun y => rank_reparent s1 t op y
+          unfold lexLt at hlex ⊢
+          rw [r1, r1]; exact hlex
         · have := sameTree.to_parent (logMerge (reparent s1 t op) false t op) t
           rw [hpar] at this; exact this
       · intro _ _ _ _ _ _ a b e
         cases e
         left
-        exact (Ext.of_ent (s := logMerge (reparent s1 t op) false t op) rfl (fun _ h => h) (fun _ h => h)).tree _ _ hst2
+        exact (Ext.of_ent (s := logMerge (reparent s1 t op) false t op)
+          (s' := send (logMerge (reparent s1 t op) false t op) (.resolve op t (rank s1 t))) rfl (fun _ h => h) (fun _ h => h)).tree _ _ hst2
     · obtain ⟨h2, hst2⟩ := h1.on_merge_exec ht1 hroot' hop hlex c8 c9
       simp only [if_true]
       apply h2.drop
